@@ -28,6 +28,16 @@ def resolve(X, name):
         return None
     r = X.parse(name)
     if not isinstance(r, xl.Err):
+        # the compound's true composition: for strings the independent reference parser rules VALID its exact expansion is
+        # used (so a formula the library mis-parses shows up here as a wrong mixture), otherwise what the library reports
+        try:
+            from . import formula_model as fm
+            v = fm.classify(name.encode('latin1', 'replace'))
+            if v.cls == 'VALID':
+                m = fm.model(v.comp)
+                return dict(kind='formula', Z=np.array(m['Elements']), w=np.array(m['massFractions']), density=None)
+        except Exception:
+            pass
         return dict(kind='formula', Z=np.array(r['Elements']), w=np.array(r['massFractions']), density=None)
     r = X.nist(name)
     if not isinstance(r, xl.Err):
